@@ -29,7 +29,7 @@ RULE = ("State = configuration + history produced by the drivers of C01 (Bloom /
         "CountMeanSketch, CountMeanMinSketch, HeavyHitters, StreamThreshold after removals) and C03 (CuckooFilter / "
         "CountingCuckooFilter after evictions/expansions, byte-width and init_error_rate constructors, narrow hashes). Then every export "
         "channel and every loader of that class is exercised, followed by a generated suffix of 0-4 further operations on original and "
-        "copy. Non-trivial = the state has a corner feature: number_bits % 8 != 0, > 1 sub-filter, a removal / eviction / expansion / "
+        "copy. Non-trivial = the state has a corner feature: number_bits % 8 != 0, > 1 sub-filter, a removal (also beyond the outstanding count: negative counters) / eviction / expansion / "
         "rotation happened, fingerprint width not a whole number of bytes, on-disk origin. Distinct by (structure, resolved history).")
 ASSUMPTIONS = ["the expanding/rotating false_positive_rate is compared after narrowing to the 32-bit float the format stores",
                "what the format does not store is re-supplied: hash function, cuckoo fingerprint width / expansion rate / auto_expand, rotating "
@@ -64,8 +64,8 @@ def strategy(tier):
         expanding.case_strategy(tier, rot=False, max_ops=30).map(tag("exp")),
         expanding.case_strategy(tier, rot=True, max_ops=30).map(tag("exp")),
         cbloom.case_strategy(tier, max_ops=25).map(tag("cbloom")),
-        cms.case_strategy(tier, classes=("cms", "cms", "hh", "st"), max_ops=25).map(tag("cms")),
-        cms.case_strategy(tier, classes=("cms",), max_ops=25).map(tag("cms")),
+        cms.case_strategy(tier, classes=("cms", "cms", "hh", "st"), max_ops=25, over_remove=True).map(tag("cms")),
+        cms.case_strategy(tier, classes=("cms",), max_ops=25, over_remove=True).map(tag("cms")),
         cuckoo.case_strategy(tier, max_ops=30).map(tag("cuckoo")),
         cuckoo.case_strategy(tier, max_ops=30).map(tag("cuckoo")),
     )
@@ -428,9 +428,11 @@ def run_case(case, ctx):
         if d.obj.number_bits % 8:
             corner.add("m%8!=0")
     elif s == "cms":
-        d = cms.CmsDriver(case, ctx, {})
+        d = cms.CmsDriver(case, ctx, {"allow_over_remove": True})
         d.run()
         name = _cms(case, ctx, d)
+        if "over_remove" in d.feats:
+            corner.add("negative_counters")
         if "remove" in d.feats:
             corner.add("after_removal")
         if name != "CountMinSketch":
